@@ -2,7 +2,9 @@ import StirVerif.C03.Model
 /-! Line-protocol driver for C03 (implementation side: harness/c03_symmetries.cxx).
 
 Sections of the protocol
-* `cfg …` / `sym …`      : a `DataSymmetriesForBins_PET_CartesianGrid` object; basic bin, symmetry operation
+* `pimpl r`               : which symmetries constructor the implementation has (x/y index-range guard, proposed repair C03-6);
+* `cfg …` / `sym …`      : a `DataSymmetriesForBins_PET_CartesianGrid` object (voxel sizes as hex floats: the model
+                            evaluates the x/y voxel-size guard); basic bin, symmetry operation
                             applied to the basic bin, to its view/segment and to sample voxels;
 * `pgeo/pnew/pset/psetup/pmode/pclear/pget` : histories on a `ProjMatrixByBinUsingRayTracing` (`pnew 0`) or a
                             `ProjMatrixByBinUsingInterpolation` (`pnew 1`: `set_up` without short cut); the rows of
@@ -65,6 +67,10 @@ structure Geo where
   V : Int
   vy : Rat                  -- y and x voxel size (the floats `get_grid_spacing()[2]`, `[3]`, exactly)
   vx : Rat
+  minY : Int := 0           -- index ranges of the image in y and x
+  maxY : Int := 0
+  minX : Int := 0
+  maxX : Int := 0
   phi0 : Bool
   tof : Bool
   xy0 : Bool
@@ -88,17 +94,17 @@ instance : Inhabited Geo :=
   ⟨{ V := 1, vy := 1, vx := 1, phi0 := true, tof := false, xy0 := true, minSeg := 0, maxSeg := 0,
      originZ4 := 0, ax := defaultAx, maxAbsAx0 := 0, maxAbsTang := 0, maxAbsTof := 0 }⟩
 
-/-- tokens: V vy vx phi0 tof xy0 nppr minSeg maxSeg minZ maxZ originZ4 maxAbsAx0 maxAbsTang maxAbsTof, then per segment
+/-- tokens: V vy vx minY maxY minX maxX phi0 tof xy0 nppr minSeg maxSeg minZ maxZ originZ4 maxAbsAx0 maxAbsTang maxAbsTof, then per segment
     `nppa delta2 minAx maxAx` -/
 def parseGeo (t : List String) : Option Geo :=
   match t with
-  | v :: vy :: vx :: p0 :: tof :: xy0 :: nppr :: mins :: maxs :: minz :: maxz :: oz4 :: ma :: mt :: mf :: rest =>
+  | v :: vy :: vx :: miny :: maxy :: minx :: maxx :: p0 :: tof :: xy0 :: nppr :: mins :: maxs :: minz :: maxz :: oz4 :: ma :: mt :: mf :: rest =>
     let nseg := (I maxs - I mins + 1).toNat
     if rest.length != 4 * nseg then none else
     match parseHex vy, parseHex vx with
     | some vy, some vx =>
     let col (k : Nat) : List Int := (List.range nseg).map fun i => I (rest.getD (4 * i + k) "0")
-    some { V := I v, vy := vy, vx := vx, phi0 := B p0, tof := B tof, xy0 := B xy0, minSeg := I mins, maxSeg := I maxs,
+    some { V := I v, vy := vy, vx := vx, minY := I miny, maxY := I maxy, minX := I minx, maxX := I maxx, phi0 := B p0, tof := B tof, xy0 := B xy0, minSeg := I mins, maxSeg := I maxs,
            originZ4 := I oz4,
            ax := { nppr := I nppr, nppa := tab (I mins) (col 0), delta2 := tab (I mins) (col 1),
                    minAx := tab (I mins) (col 2), maxAx := tab (I mins) (col 3),
@@ -107,16 +113,17 @@ def parseGeo (t : List String) : Option Geo :=
     | _, _ => none
   | _ => none
 
-def Geo.sym (g : Geo) (f : Flags) : Sym :=
-  Sym.make g.V (f.effectiveVox g.V g.vy g.vx g.phi0 g.tof g.xy0) g.ax
+/-- `xyRangeGuard`: which constructor the implementation has (op `pimpl`, see `Flags.effectiveImg`) -/
+def Geo.sym (g : Geo) (xyRangeGuard : Bool) (f : Flags) : Sym :=
+  Sym.make g.V (f.effectiveImg g.V g.vy g.vx xyRangeGuard g.minY g.maxY g.minX g.maxX g.phi0 g.tof g.xy0) g.ax
 
 /-- the constructor calls `error` when the z origin is not a whole number of planes -/
 def Geo.valid (g : Geo) : Bool := g.originZ4 % 4 == 0
 
 def segList (g : Geo) : List Int := (List.range (g.maxSeg - g.minSeg + 1).toNat).map fun (k : Nat) => g.minSeg + (k : Int)
 
-def fmtEff (g : Geo) (f : Flags) : String :=
-  let y := g.sym f
+def fmtEff (g : Geo) (xyRangeGuard : Bool) (f : Flags) : String :=
+  let y := g.sym xyRangeGuard f
   s!"eff {b2s y.d90} {b2s y.d180} {b2s y.swapSeg} {b2s y.swapS} {b2s y.shiftZ} {y.nppr} nppa " ++
     " ".intercalate ((segList g).map fun s => toString (y.nppa s)) ++ " zoff4 " ++
     " ".intercalate ((segList g).map fun s => toString (y.zoff4 s))
@@ -163,6 +170,7 @@ structure St where
   geos : List (Nat × Geo) := []
   table : List (DKey × Elems) := []
   kind : Nat := 0              -- 0: ProjMatrixByBinUsingRayTracing, 1: ProjMatrixByBinUsingInterpolation
+  xyRangeGuard : Bool := false -- op `pimpl`: the symmetries constructor looks at the x/y index ranges (proposed repair C03-6)
   actualKeepsViewSym : Bool := true
                                -- which `set_up` the implementation has (the harness looks): `true`: the five switches go to
                                -- the symmetries constructor as they are; `false`: `set_up` switches the 90°/180° symmetries
@@ -178,7 +186,7 @@ def St.world (st : St) : World Nat String :=
       let gg := st.ofClass g
       let f := if st.kind == 0 && p.actualBoundaries && gg.actualElig && !st.actualKeepsViewSym
                then { p.flags with d90 := false, d180 := false } else p.flags
-      gg.sym f
+      gg.sym st.xyRangeGuard f
     compute := fun g p b => (st.table.find? fun e => e.1 == ⟨st.kind, g, p.ntl, p.restrictFOV, p.actualBoundaries, b⟩).map (·.2)
     fits := fun g => let gg := st.ofClass g; keyFits gg.maxAbsAx0 gg.maxAbsTang gg.maxAbsTof }
 
@@ -200,8 +208,9 @@ def stepLine (st : St) (line : String) : St × String :=
     | some g =>
       let f : Flags := ⟨B f90, B f180, B fseg, B fs, B fz⟩
       if !g.valid then ({ st with geo := g, flags := f }, "err")
-      else ({ st with geo := g, flags := f }, fmtEff g f)
-  | ["sym", s, v, a, t, tf] => (st, answerSym (st.geo.sym st.flags) ⟨I s, I v, I a, I t, I tf⟩)
+      else ({ st with geo := g, flags := f }, fmtEff g st.xyRangeGuard f)
+  | ["sym", s, v, a, t, tf] => (st, answerSym (st.geo.sym st.xyRangeGuard st.flags) ⟨I s, I v, I a, I t, I tf⟩)
+  | ["pimpl", r] => ({ st with xyRangeGuard := B r }, "ok")
   | "pgeo" :: gid :: cls :: elig :: rest =>
     match parseGeo rest with
     | none => (st, "bad-pgeo")
